@@ -82,7 +82,7 @@ def check(chk):
     cfg = f.cfg()
     mark = [n for n in cfg.nodes_where(lambda n: n.kind == "stmt" and isinstance(n.ast, ast.Assign) and src(n.ast.targets[0]) == "self.completed"
                                        and src(n.ast.value) == "True")]
-    chk.require(mark, "C18: complete() no longer marks the block completed")
+    chk.need(mark, "DOM-34", "complete() marks the block completed", f)
     ok = cfg.guards_at(mark[0].id).get("self.completed") is False
     chk.ob("DOM-34", "a block completes only when it is not completed yet", ok, f.where(mark[0].ast), construct=f.ident, text="complete guard")
     posts = [n for n, c in cfg.calls_named("post")]
